@@ -9,10 +9,9 @@ hypothesis is *derived* for every tree that comes out of lexing and parsing a ru
   matches it: `C20_priority`), for any table;
 * `wf_of_D` – a tree the grammar derives from good tokens is well-formed;
 * **`C15_sentences`** – for every rule text `s` that is a sentence (with tree `t`), every rendering of `t` under every
-  choice of the free spellings is read back as `t`; two hypotheses remain, both decidable per sentence: the string
-  literals of `s` are closed (`extClosed`: no rule can match anything longer – kernel-evaluated instances in
-  `LexClosed.string_literals_closed`) and its integer literals carry no sign and no exponent (`plainLongs`; signed and
-  exponent forms are `C15_char_level3`).
+  choice of the free spellings is read back as `t`; what remains are facts about the *table* (`TableOK`, `spellOK`, closed
+  string literals), all proved for the table regenerated on this run (`C15SignedTable`, `C15StringClosed`). Signed
+  integers and integers with exponents are included (`Proofs/LexSigned.lean`).
 -/
 namespace Rules
 open Rules.Regex
@@ -80,14 +79,6 @@ end Rules
 namespace Rules.Render
 open Rules.P Rules
 
-/-- integer literals carry neither a sign nor an exponent (those are covered by `C15_char_level3`, not by `render`) -/
-def plainLongs : Tree → Bool
-  | .paren _ q => plainLongs q
-  | .logical _ l r => plainLongs l && plainLongs r
-  | .present _ => true
-  | .compare _ _ (.long neg _ e) => !neg && e.isNone
-  | .compare _ _ _ => true
-
 /-- what a token of the input must satisfy for the tree built from it to be well-formed in the sense of `wf` -/
 def GoodTok (rules : List (Kind × Regex)) (cl : List Char → Bool) (x : Tok) : Prop := okTok rules cl x.kind x.text = true
 
@@ -114,7 +105,7 @@ theorem isPrimary_of_D {ts t} (h : D true ts t) : isPrimary t = true := by
   cases h <;> rfl
 
 theorem wfLit_of_DValue (rules : List (Kind × Regex)) (cl : List Char → Bool) {vs v} (h : DValue vs v) (hg : ∀ x ∈ vs, GoodTok rules cl x)
-    (hl : ∀ neg i e, v = .long neg i e → neg = false ∧ e = none) : wfLit rules cl v = true := by
+    : wfLit rules cl v = true := by
   cases h with
   | bool t => simpa [wfLit, GoodTok] using hg ⟨BOOLEAN, t⟩ (by simp)
   | null t => rfl
@@ -122,62 +113,63 @@ theorem wfLit_of_DValue (rules : List (Kind × Regex)) (cl : List Char → Bool)
   | str t => simpa [wfLit, GoodTok] using hg ⟨STRING, t⟩ (by simp)
   | double t => simpa [wfLit, GoodTok] using hg ⟨DOUBLE, t⟩ (by simp)
   | long m i e =>
-    obtain ⟨h1, h2⟩ := hl _ _ _ rfl
-    have : GoodTok rules cl ⟨INT, i⟩ := hg ⟨INT, i⟩ (by simp)
-    simp only [wfLit, h1, h2]
-    simpa [GoodTok] using this
+    have h1 : GoodTok rules cl ⟨INT, i⟩ := hg ⟨INT, i⟩ (by simp)
+    simp only [wfLit, Bool.and_eq_true]
+    refine ⟨by simpa [GoodTok] using h1, ?_⟩
+    cases e with
+    | none => rfl
+    | some x =>
+      have h2 : GoodTok rules cl ⟨EXP, x⟩ := hg ⟨EXP, x⟩ (by simp)
+      simpa [GoodTok] using h2
   | list k hk b hlst =>
     have := all_of_DList rules cl hlst (fun x hx _ => hg x (by simp [hx]))
     simp only [wfLit, Bool.and_eq_true, Bool.or_eq_true, beq_iff_eq, Bool.not_eq_true', List.isEmpty_eq_false_iff]
     exact ⟨⟨by rcases hk with h | h | h <;> simp [h], this.1⟩, this.2⟩
 
 /-- **every tree the grammar derives from good tokens is well-formed** -/
-theorem wf_of_D (rules : List (Kind × Regex)) (cl : List Char → Bool) : ∀ {b ts t}, D b ts t → (∀ x ∈ ts, GoodTok rules cl x) → plainLongs t = true →
+theorem wf_of_D (rules : List (Kind × Regex)) (cl : List Char → Bool) : ∀ {b ts t}, D b ts t → (∀ x ∈ ts, GoodTok rules cl x) →
     wf rules cl t = true := by
   intro b ts t h
   induction h with
   | paren n s1 s2 s3 l r _ ih =>
-    intro hg hp
-    exact ih (fun x hx => hg x (by simp [hx])) hp
+    intro hg
+    exact ih (fun x hx => hg x (by simp [hx]))
   | present s pr hpth =>
-    intro hg _
+    intro hg
     exact wfPath_of_DPath rules cl hpth (fun x hx _ => hg x (by simp [hx]))
   | compare s1 o s2 k hk hpth hv =>
-    intro hg hp
+    intro hg
     have h1 := wfPath_of_DPath rules cl hpth (fun x hx _ => hg x (by simp [hx]))
-    have h2 := wfLit_of_DValue rules cl hv (fun x hx => hg x (by simp [hx])) (by
-      intro neg i e he
-      subst he
-      simpa [plainLongs] using hp)
+    have h2 := wfLit_of_DValue rules cl hv (fun x hx => hg x (by simp [hx]))
     simp [wf, h1, hk, h2]
   | prim _ ih => exact ih
   | logical s1 op s2 _ hr ih1 ih2 =>
-    intro hg hp
-    simp only [plainLongs, Bool.and_eq_true] at hp
+    intro hg
     have h0 : GoodTok rules cl ⟨LOGOP, op⟩ := hg _ (by simp)
-    have h1 := ih1 (fun x hx => hg x (by simp [hx])) hp.1
-    have h2 := ih2 (fun x hx => hg x (by simp [hx])) hp.2
+    have h1 := ih1 (fun x hx => hg x (by simp [hx]))
+    have h2 := ih2 (fun x hx => hg x (by simp [hx]))
     simp only [wf, Bool.and_eq_true]
     exact ⟨⟨⟨by simpa [GoodTok] using h0, h1⟩, h2⟩, isPrimary_of_D hr⟩
 
 /-- `C15_render` with closedness of the string literals as a proposition about the table -/
-theorem C15_renderP (rules : List (Kind × Regex)) (htab : adjTableOK rules = true) (hsp : spellOK rules = true)
+theorem C15_renderP (rules : List (Kind × Regex)) (htab : TableOK rules) (hsp : spellOK rules = true)
     (hstr : ∀ x : Token, Canon rules x → x.kind = STRING → ClosedP rules x.text)
     (t : Tree) (h : wf rules (fun _ => true) t = true) (sty : Sty) :
     lexParse rules (text (render sty [] t)) = some t := by
   have hd := (render_D rules (fun _ => true) sty t [] h).1
   have hg := render_good rules (fun _ => true) hsp sty t [] h
-  exact lexParse_tokensP rules htab (render sty [] t) t hd (fun x hx => (hg x hx).1)
-    (fun x hx hk => hstr x (hg x hx).1 hk) (fun x hx => (hg x hx).2.2)
+  exact lexParse_tokensQ rules htab.adj htab.follow htab.signed (render sty [] t) t hd (fun x hx => (hg x hx).1)
+    (fun x hx hk => hstr x (hg x hx).1 hk)
 
 /-- **C15 for every sentence.** Let `s` be any rule text the grammar accepts, `t` its tree. Then every rendering of `t` –
 every choice of the free spellings, optional blanks, newlines, comma blanks – is read back as `t`, provided the table's
-string literals are closed (a property of the table, `hstr`; proved for the regenerated table in `C15StringClosed`) and
-the integer literals of `s` carry no sign and no exponent (`plainLongs`; the signed / exponent forms are `C15_char_level3`). -/
-theorem C15_sentences (rules : List (Kind × Regex)) (htab : adjTableOK rules = true) (hsp : spellOK rules = true)
+string literals are closed (a property of the table, `hstr`; proved for the regenerated table in `C15StringClosed`) and the
+table separates neighbouring tokens (`TableOK`, proved for the regenerated table in `C15SignedTable`). Nothing is assumed
+about `s` itself: negative integers and integers with exponents are covered. -/
+theorem C15_sentences (rules : List (Kind × Regex)) (htab : TableOK rules) (hsp : spellOK rules = true)
     (hstr : ∀ x : Token, Canon rules x → x.kind = STRING → ClosedP rules x.text)
     (s : List Char) (ts : List Token) (t : Tree) (hl : lex rules s = some ts) (hpar : P.parse (ts.map toTok) = some t)
-    (hp : plainLongs t = true) (sty : Sty) :
+    (sty : Sty) :
     lexParse rules (text (render sty [] t)) = some t := by
   have hd : D false (ts.map toTok) t := (P.parse_iff _ _).1 hpar
   have hg : ∀ x ∈ ts.map toTok, GoodTok rules (fun _ => true) x := by
@@ -187,14 +179,14 @@ theorem C15_sentences (rules : List (Kind × Regex)) (htab : adjTableOK rules = 
     have hround : tkS tok.kind (String.ofList tok.text) = tok := by
       cases tok; simp [tkS]
     simp [GoodTok, okTok, toTok, hround, hc]
-  exact C15_renderP rules htab hsp hstr t (wf_of_D rules (fun _ => true) hd hg hp) sty
+  exact C15_renderP rules htab hsp hstr t (wf_of_D rules (fun _ => true) hd hg) sty
 
 /-- … so any two renderings of a sentence's tree evaluate alike on every object -/
-theorem C15_sentences_process (rules : List (Kind × Regex)) (htab : adjTableOK rules = true) (hsp : spellOK rules = true)
+theorem C15_sentences_process (rules : List (Kind × Regex)) (htab : TableOK rules) (hsp : spellOK rules = true)
     (hstr : ∀ x : Token, Canon rules x → x.kind = STRING → ClosedP rules x.text)
     (s : List Char) (ts : List Token) (t : Tree) (hl : lex rules s = some ts) (hpar : P.parse (ts.map toTok) = some t)
-    (hp : plainLongs t = true) (sty sty' : Sty) (lower : Bytes → Bytes) (item : List (Bytes × Value)) :
+    (sty sty' : Sty) (lower : Bytes → Bytes) (item : List (Bytes × Value)) :
     (lexParse rules (text (render sty [] t))).map (fun tr => processTree lower tr item) =
     (lexParse rules (text (render sty' [] t))).map (fun tr => processTree lower tr item) := by
-  rw [C15_sentences rules htab hsp hstr s ts t hl hpar hp sty, C15_sentences rules htab hsp hstr s ts t hl hpar hp sty']
+  rw [C15_sentences rules htab hsp hstr s ts t hl hpar sty, C15_sentences rules htab hsp hstr s ts t hl hpar sty']
 end Rules.Render
